@@ -28,7 +28,7 @@ class C07(Prop):
             "non-trivial = at least two degrees in range and a degree with at least two splits; distinct = distinct case")
     assumptions = ["the overall degree function and the probabilities are exact rationals (the real code runs on an exact number type)"]
     model_scope = "modelled: joint_degree_split_degree.py and joint_degree_delta.py in full"
-    budgets = {"quick": 250, "thorough": 3000}
+    budgets = {"quick": 250, "thorough": 15000}
     search_budget = {"quick": 600, "thorough": 5000}
 
     def gen(self, rng, i, tier):
